@@ -10,22 +10,22 @@ import (
 
 func init() {
 	register(&Rule{
-		ID: "C11.nil-on-infinity", Prop: "C11", Also: []string{"C02"}, Floor: 5, Controls: 1,
+		ID: "C11.nil-on-infinity", Prop: "C11", Also: []string{"C02", "C13", "C14"}, Floor: 5, Controls: 1,
 		Doc: "(*big.Float).Int returns nil for an infinity: wherever its *big.Int result is dereferenced, the call is dominated by a test that the float is finite (IsInf exit, IsInt, or the returned accuracy compared with big.Exact); comparing the cty value with the infinity singletons by == does not count (pointer identity)",
 		Run: runNilOnInfinity,
 	})
 	register(&Rule{
-		ID: "C11.float-nan", Prop: "C11", Also: []string{"C17", "C16"}, Floor: 2, Controls: 1,
+		ID: "C11.float-nan", Prop: "C11", Also: []string{"C17", "C16", "C13", "C14"}, Floor: 2, Controls: 1,
 		Doc: "a float64 produced by math.Log/Log2/Log10/Pow/Sqrt/Mod/Acos/Asin, by a float division, or read from MessagePack input reaches cty.NumberFloatVal only through a math.IsNaN test (NumberFloatVal panics on NaN, so the standard function would report an internal panic)",
 		Run: runFloatNaN,
 	})
 	register(&Rule{
-		ID: "C11.negative-count", Prop: "C11", Floor: 2, Controls: 1,
+		ID: "C11.negative-count", Prop: "C11", Also: []string{"C13", "C14"}, Floor: 2, Controls: 1,
 		Doc: "an int filled from an argument by gocty.FromCtyValue reaches strings.Repeat, a make size or a slice bound only after a '< 0' test on the same variable (those panic on negative counts)",
 		Run: runNegativeCount,
 	})
 	register(&Rule{
-		ID: "C11.compare-by-identity", Prop: "C11", Also: []string{"C15", "C12", "C04", "C17", "C07"}, Floor: 30, Controls: 1,
+		ID: "C11.compare-by-identity", Prop: "C11", Also: []string{"C15", "C12", "C04", "C17", "C07", "C13", "C14"}, Floor: 30, Controls: 1,
 		Doc: "Go == / != between two cty.Value or two cty.Type operands is used only against a package-level singleton (NilVal, DynamicVal, True, False, the primitive types, the dynamic pseudo-type, NilType): comparing two arbitrary values or types with == is pointer identity posing as equality and panics at run time on uncomparable payloads (object, tuple, map types)",
 		Run: runCompareByIdentity,
 	})
